@@ -136,6 +136,56 @@ static void unperturbedRun(World* w, Outcome* out, bool log) {
   }
 }
 
+// a periodically perturbed run from the current state of w, judged by RefPerturbed
+static void perturbedRun(World* w, const PerturbPattern& pat, Outcome* out, bool log) {
+  vector<int> prio0;
+  long sum = 0;
+  for (int k = 0; k < w->m_cfg.n; k++) {
+    SlotView v = w->view(k);
+    prio0.push_back(v.present ? v.prio : -1);
+    if (k != pat.m && v.present && v.prio > 0) sum += v.prio;
+  }
+  if (pat.m >= w->m_cfg.n) { out->ok = false; return; }
+  // class of the start state for the signature: has any message been selected at a virtual time > 0 yet
+  out->startClass = w->lastPollOrder() == 0 ? "g0" : "g+";
+  sum += pat.kind == 'F' ? std::max(0, prio0[static_cast<size_t>(pat.m)]) : std::max(pat.a, pat.b);
+  long reps = pat.repetitions(sum);
+  vector<int> ev;
+  ev.reserve(static_cast<size_t>(reps * (pat.q + 1)));
+  int toggles = 0;
+  for (long r = 0; r < reps; r++) {
+    for (int i = 0; i < pat.q; i++) {
+      Message* m = w->next();
+      R.transitions++;
+      int s = m ? w->slotOf(m) : EV_NULL;
+      ev.push_back(m == nullptr ? EV_NULL : (s < 0 ? 99 : s));
+    }
+    int pr = (toggles++ % 2 == 0) ? pat.a : pat.b;
+    bool ok = pat.kind == 'P' ? w->setPrio(pat.m, pr) : pat.kind == 'F' ? w->toFront(pat.m) : w->redefine(pat.m, pr);
+    if (!ok) { out->ok = false; return; }
+    R.transitions++;
+    ev.push_back(EV_PERTURB);
+  }
+  out->findings = RefPerturbed(pat, prio0).judge(ev);
+  if (log) {
+    char b[256];
+    snprintf(b, sizeof(b), "periodically perturbed run %s: %ld x { %d x getNextPoll ; %s }\n", pat.str().c_str(), reps, pat.q,
+             pat.kind == 'P' ? "if (m->setPollPriority(alternately a,b)) addPollMessage(false, m)" : pat.kind == 'F' ? "addPollMessage(true, m)" : "remove m if defined; define m with priority alternately a,b");
+    out->runLog += b;
+    out->runLog += "start class: " + out->startClass + (out->startClass == "g0" ? " (no message has been selected at a virtual time > 0 yet)\n" : "\n");
+    out->runLog += "first events (digit = selected message, | = perturbation): ";
+    for (size_t k = 0; k < ev.size() && k < 100; k++) out->runLog += ev[k] == EV_PERTURB ? string("|") : ev[k] == EV_NULL ? string("?") : string(1, static_cast<char>('0' + ev[k]));
+    out->runLog += "\n";
+    vector<long> n(prio0.size(), 0);
+    for (int e : ev) if (e >= 0 && e < static_cast<int>(n.size())) n[static_cast<size_t>(e)]++;
+    for (size_t k = 0; k < prio0.size(); k++) {
+      snprintf(b, sizeof(b), "  m%zu %s: priority at start %d, selected %ld times\n", k, static_cast<int>(k) == pat.m ? "(perturbed)" : "           ", prio0[k], n[k]);
+      out->runLog += b;
+    }
+    for (auto& x : out->findings) out->runLog += "  VIOLATES " + x.rule + ": " + x.detail + "\n";
+  }
+}
+
 // replays cfg+ops on fresh objects in THIS process (call only in a fresh child / replay process)
 static bool replayHistory(World* w, const vector<Op>& ops, Outcome* out, string* log, bool preloaded = false) {
   if (!preloaded && !w->loadInitial()) return false;
@@ -176,7 +226,7 @@ static string encodeOutcome(const Outcome& o, uint64_t transitions) {
   snprintf(b, sizeof(b), "\n%d\n%llu\n%s\n%llu\n", o.heapOk ? 1 : 0, static_cast<unsigned long long>(o.seqHash), o.startClass.c_str(),
            static_cast<unsigned long long>(transitions));
   s += b;
-  for (auto& f : o.findings) s += f.rule + "\t" + f.detail + "\n";
+  for (auto& f : o.findings) { snprintf(b, sizeof(b), "\t%zu\t", f.msg); s += f.rule + b + f.detail + "\n"; }
   return s;
 }
 static bool decodeOutcome(const string& s, Outcome* o, uint64_t* transitions) {
@@ -201,8 +251,9 @@ static bool decodeOutcome(const string& s, Outcome* o, uint64_t* transitions) {
   *transitions = strtoull(lines[7].c_str(), nullptr, 10);
   for (size_t i = 8; i < lines.size(); i++) {
     size_t t = lines[i].find('\t');
-    if (t == string::npos) continue;
-    o->findings.push_back({lines[i].substr(0, t), 0, lines[i].substr(t + 1)});
+    size_t t2 = t == string::npos ? t : lines[i].find('\t', t + 1);
+    if (t2 == string::npos) continue;
+    o->findings.push_back({lines[i].substr(0, t), static_cast<size_t>(strtoul(lines[i].substr(t + 1, t2 - t - 1).c_str(), nullptr, 10)), lines[i].substr(t2 + 1)});
   }
   return true;
 }
@@ -220,9 +271,14 @@ static void workerLoop(World* pristine, int sock) {
       Outcome o;
       R.transitions = 0;
       g_now = T0;
-      bool ok = parseOps(buf, &ops) && replayHistory(pristine, ops, &o, nullptr, true);
+      string task(buf), patStr;
+      size_t bar = task.find('|');
+      if (bar != string::npos) { patStr = task.substr(bar + 1); task.resize(bar); }
+      PerturbPattern pat;
+      bool ok = parseOps(task, &ops) && (patStr.empty() || PerturbPattern::parse(patStr, &pat)) && replayHistory(pristine, ops, &o, nullptr, true);
       o.ok = ok;
-      if (ok) unperturbedRun(pristine, &o, false);
+      if (ok && patStr.empty()) unperturbedRun(pristine, &o, false);
+      else if (ok) perturbedRun(pristine, pat, &o, false);
       string blob = encodeOutcome(o, R.transitions);
       if (send(sock, blob.data(), blob.size(), 0) != static_cast<ssize_t>(blob.size())) _exit(4);
       _exit(0);
@@ -345,7 +401,33 @@ static void report(const Cfg& cfg, const vector<Op>& h, const Outcome& o) {
   }
 }
 
-static void bfs(const Cfg& cfg, int depth, int workers) {
+static const int PQS[4] = {1, 2, 3, 5};
+static vector<PerturbPattern> patternsFor(const Cfg& cfg, const SlotView* v) {
+  vector<PerturbPattern> out;
+  for (int m = 0; m < cfg.n; m++) {
+    for (char kind : {'P', 'F', 'A'}) {
+      if (kind != 'A' && !v[m].present) continue;
+      if (kind == 'F' && v[m].prio <= 0) continue;
+      for (int a : PRIOS) for (int b : PRIOS) for (int q : PQS) {
+        if (kind == 'F' && (a != PRIOS[0] || b != PRIOS[0])) continue;
+        if (kind == 'A' && a > b) continue;  // re-definition: the phase of the alternation does not matter, unordered pairs
+        PerturbPattern p;
+        p.kind = kind; p.m = m; p.a = kind == 'F' ? 0 : a; p.b = kind == 'F' ? 0 : b; p.q = q;
+        out.push_back(p);
+      }
+    }
+  }
+  return out;
+}
+static string perturbedSig(const RefPoll::Finding& f, const PerturbPattern& pat, const vector<Op>& h, const string& startClass) {
+  string kind = pat.kind == 'F' ? "front" : string(pat.kind == 'P' ? "prio" : "add") + (pat.a == pat.b ? "-same" : "-alt");
+  string who = f.rule == "share-perturbed" ? "other-messages" : (static_cast<int>(f.msg) == pat.m && pat.kind != 'F') ? "perturbed-message" : "other-message";
+  if (pat.kind == 'F') who = "any-message";
+  (void)h;  // the class of the history is in the case string; the start class tells whether polling has left virtual time 0
+  return "C17/" + f.rule + "/" + kind + "/" + who + "-" + startClass;
+}
+
+static void bfs(const Cfg& cfg, int depth, int workers, int pdepth) {
   std::unordered_map<string, uint64_t> visited;  // canonical state -> hash of the unperturbed selection sequence
   vector<Node> frontier, next;
   g_now = T0;
@@ -357,6 +439,38 @@ static void bfs(const Cfg& cfg, int depth, int workers) {
   struct Task { size_t node; Op op; };
   vector<Task> tasks;
   bool stop = false;
+  // states from which the periodically perturbed runs start (all states up to depth pdepth)
+  vector<Node> ptargets;
+  auto runPerturbed = [&]() {
+    struct PTask { size_t target; PerturbPattern pat; };
+    vector<PTask> pt;
+    for (size_t i = 0; i < ptargets.size(); i++) for (const PerturbPattern& p : patternsFor(cfg, ptargets[i].v)) pt.push_back({i, p});
+    pool.runAll(pt.size(), [&](size_t t) {
+      string h = opsStr(ptargets[pt[t].target].h);
+      return (h.empty() ? string(".") : h) + "|" + pt[t].pat.str();
+    }, [&](size_t t, const string& blob) {
+      if (stop) return;
+      if ((t & 1023) == 0 && R.expired()) { stop = true; return; }
+      Outcome o;
+      uint64_t tr = 0;
+      if (!decodeOutcome(blob, &o, &tr)) { fprintf(stderr, "c17: bad result record\n"); exit(3); }
+      const vector<Op>& h = ptargets[pt[t].target].h;
+      R.transitions += tr;
+      R.evaluations++;
+      string cs = cfg.str() + ";ops=" + opsStr(h) + ";pat=" + pt[t].pat.str();
+      if (!o.ok && o.findings.empty()) { fprintf(stderr, "c17: perturbed run %s could not be executed\n", cs.c_str()); exit(3); }
+      if (o.canon != ptargets[pt[t].target].canon && o.ok) { fprintf(stderr, "c17: canonical state not reproduced before perturbed run %s\n", cs.c_str()); exit(3); }
+      R.tracesValidated++;
+      R.count("perturbed_runs");
+      for (auto& f : o.findings) {
+        string sig = f.rule == "crash" ? "C17/crash/perturbed/" + pertClass(h) : perturbedSig(f, pt[t].pat, h, o.startClass);
+        R.violation(sig, f.detail + " in the perturbed run " + pt[t].pat.str() + " after " + (h.empty() ? string("the initial load") : opsStr(h)) + " (" + cfg.str() + ")", cs);
+      }
+      if (R.samples.size() < 7 && t == 37) R.sample(cs + " (periodically perturbed judged run)");
+    }, &stop);
+    R.count("perturbed_run_start_states", ptargets.size());
+    ptargets.clear();
+  };
   // level -1: the initial state
   pool.runAll(1, [](size_t) { return string(); }, [&](size_t, const string& blob) {
     Outcome o;
@@ -380,8 +494,10 @@ static void bfs(const Cfg& cfg, int depth, int workers) {
     n.canon = o.canon;
     for (int k = 0; k < MAXSLOT; k++) n.v[k] = o.view[k];
     frontier.push_back(n);
+    if (pdepth >= 0) ptargets.push_back(n);
     if (R.samples.size() < 2) R.sample(cfg.str() + " initial state " + o.canon);
   }, &stop);
+  if (!stop && !ptargets.empty()) runPerturbed();
   for (int d = 0; d < depth && !frontier.empty() && !stop; d++) {
     next.clear();
     tasks.clear();
@@ -427,15 +543,17 @@ static void bfs(const Cfg& cfg, int depth, int workers) {
       if (o.startClass != "normal") R.count("states_" + o.startClass);
       report(cfg, h, o);
       if (R.samples.size() < 5 && d >= 2) R.sample(cfg.str() + " ops=" + opsStr(h) + " -> state " + o.canon);
-      if (d + 1 < depth) {
+      if (d + 1 < depth || d + 1 <= pdepth) {
         Node n;
         n.h = h;
         n.canon = o.canon;
         for (int k = 0; k < MAXSLOT; k++) n.v[k] = o.view[k];
-        next.push_back(n);
+        if (d + 1 < depth) next.push_back(n);
+        if (d + 1 <= pdepth) ptargets.push_back(n);
       }
     }, &stop);
     frontier.swap(next);
+    if (!stop && !ptargets.empty()) runPerturbed();
     if (!stop) {
       char b[64];
       snprintf(b, sizeof(b), "levels_completed_depth_%d", d + 1);
@@ -508,7 +626,15 @@ static int replay(const string& cs) {
   string log;
   if (!replayHistory(w, ops, &o, &log)) { printf("%shistory cannot be replayed\n", log.c_str()); return 2; }
   printf("%s", log.c_str());
-  unperturbedRun(w, &o, true);
+  if (m.count("pat")) {
+    PerturbPattern pat;
+    if (!PerturbPattern::parse(m["pat"], &pat)) { printf("bad pattern\n"); return 2; }
+    printf("state before the perturbed run: %s\n", w->canon(w->lastPollOrder()).c_str());
+    perturbedRun(w, pat, &o, true);
+    if (!o.ok) { printf("perturbed run cannot be executed\n"); return 2; }
+  } else {
+    unperturbedRun(w, &o, true);
+  }
   printf("%s", o.runLog.c_str());
   printf(o.findings.empty() ? "OK\n" : "VIOLATES\n");
   return o.findings.empty() ? 0 : 1;
@@ -524,12 +650,15 @@ int main(int argc, char** argv) {
   int workers = static_cast<int>(A.getInt("workers", 16));
   // work list: (configuration, depth).  "core" configurations are searched deep, the broad set of
   // initial priority vectors shallow.
-  struct Item { Cfg cfg; int depth; };
+  struct Item { Cfg cfg; int depth; int pdepth; };
   vector<Item> items;
+  int pdepth = static_cast<int>(A.getInt("pdepth", 2));    // perturbed runs from all states up to this depth, core configurations
+  int pbdepth = static_cast<int>(A.getInt("pbdepth", 0));  // ... broad sets (-1: none)
+  int pdepth4 = static_cast<int>(A.getInt("pdepth4", 2));  // ... core configurations with 4 messages
   auto addCore = [&](int n, const char* ip, int dt, int warm, int depth) {
     if (depth <= 0) return;
     Cfg c; c.n = n; c.ip = ip; c.dt = dt; c.warm = warm;
-    items.push_back({c, depth});
+    items.push_back({c, depth, std::min(n == 4 ? pdepth4 : pdepth, depth)});
   };
   int depth = static_cast<int>(A.getInt("depth", 6));     // first core configuration
   int depth2 = static_cast<int>(A.getInt("depth2", 5));   // further core configurations
@@ -541,11 +670,11 @@ int main(int argc, char** argv) {
   addCore(3, "93-", 1, 0, depth2);
   addCore(4, "1239", 1, 50, depth4);
   addCore(4, "220-", 0, 50, depth4 > 0 ? depth4 - 1 : 0);
-  if (bdepth > 0) for (const Cfg& c : configs(3, A.get("set", "sorted"))) items.push_back({c, bdepth});
-  if (bdepth4 > 0) for (const Cfg& c : configs(4, A.get("set", "sorted"))) items.push_back({c, bdepth4});
+  if (bdepth > 0) for (const Cfg& c : configs(3, A.get("set", "sorted"))) items.push_back({c, bdepth, std::min(pbdepth, bdepth)});
+  if (bdepth4 > 0) for (const Cfg& c : configs(4, A.get("set", "sorted"))) items.push_back({c, bdepth4, std::min(pbdepth, bdepth4) > 0 ? 0 : std::min(pbdepth, bdepth4)});
   // cheap items first: the process is smallest when the workers of the expensive searches are forked
   std::stable_sort(items.begin(), items.end(), [](const Item& a, const Item& b) {
-    return a.depth * 10 + a.cfg.n < b.depth * 10 + b.cfg.n;
+    return a.depth * 10 + a.cfg.n < b.depth * 10 + b.cfg.n;  // (stable: core configurations of equal depth keep their order)
   });
   long only = A.getInt("only", -1);
   for (size_t i = 0; i < items.size(); i++) {
@@ -554,15 +683,15 @@ int main(int argc, char** argv) {
     if (R.expired()) break;
     double t0 = vp::rawNow();
     uint64_t s0 = g_states, e0 = R.evaluations;
-    bfs(items[i].cfg, items[i].depth, workers);
+    bfs(items[i].cfg, items[i].depth, workers, items[i].pdepth);
     malloc_trim(0);
     R.count("configurations");
     if (A.getInt("verbose", 0)) fprintf(stderr, "%s depth=%d: states=%llu executions=%llu %.1fs\n", items[i].cfg.str().c_str(), items[i].depth,
         (unsigned long long)(g_states - s0), (unsigned long long)(R.evaluations - e0), vp::rawNow() - t0);
   }
-  char b[256];
-  snprintf(b, sizeof(b), "core depths %d/%d (3 messages) %d (4 messages); broad sets depth %d (3 messages, %s) %d (4 messages); %zu (configuration, depth) items; every revisit of a canonical state re-ran the unperturbed run and had to reproduce the first visit's selection sequence",
-           depth, depth2, depth4, bdepth, A.get("set", "sorted").c_str(), bdepth4, items.size());
+  char b[400];
+  snprintf(b, sizeof(b), "core depths %d/%d (3 messages) %d (4 messages); broad sets depth %d (3 messages, %s) %d (4 messages); perturbed runs from all states up to depth %d (core) / %d (broad); %zu (configuration, depth) items; every revisit of a canonical state re-ran the unperturbed run and had to reproduce the first visit's selection sequence",
+           depth, depth2, depth4, bdepth, A.get("set", "sorted").c_str(), bdepth4, pdepth, pbdepth, items.size());
   R.note(b);
   for (uint64_t i = 0; i < g_states; i++) R.stateSet.insert(i);      // numbers of canonical states / of non-initial ones
   for (uint64_t i = 0; i < g_distinct; i++) R.distinctSet.insert(i);
